@@ -27,7 +27,7 @@ MUTANTS = [
     ("disc_no_clip", ["C01", "C05", "C13"], M, "return int(np.clip(value, lb, ub))", "return int(value)"),
     ("disc_upper_off_by_one", ["C01", "C05", "C13", "C14"], M,
      "return 0, len(self.choices) - 1", "return 0, len(self.choices)"),
-    ("init_agent_skips_correction_when_given", ["C01", "C05"], M,
+    ("init_agent_skips_correction_when_given", ["C01"], M,          # C05 holds: Task.solve corrects again
      "return self.correct_solution(solution if solution is not None else self.empty_solution())",
      "return solution if solution is not None else self.correct_solution(self.empty_solution())"),
     ("perm_correct_plain_argsort", ["C02", "C13", "C14"], M,
@@ -48,12 +48,12 @@ MUTANTS = [
      '            return a\n\n        task_type = kwargs.get("task_type", TaskType.MIN)\n        agents'),
     ("fitness_branches_swapped", ["C02"], H,
      "return (1 / (value + 1)) if value >= 0 else (1 + abs(value))",
-     "return (1 / (value + 1)) if value > 0 else (1 + abs(value))"),
+     "return (1 + abs(value)) if value >= 0 else (1 / (value + 1))"),          # (>= -> > is an equivalent mutant)
     ("fitness_ignores_direction", ["C02"], H, "value = value if task_type == TaskType.MIN else -value", "value = value"),
     # ---- C03 / C16
-    ("best_worst_unpacked_swapped", ["C03", "C12"], A,
-     "        (self._best_agent, ), (self._worst_agent, ) = special_agents(self._population, n_best=1, n_worst=1)\n\n        self.after_initialization()",
-     "        (self._worst_agent, ), (self._best_agent, ) = special_agents(self._population, n_best=1, n_worst=1)\n\n        self.after_initialization()"),
+    ("best_worst_unpacked_swapped", ["C03"], A,          # (swapping only the pre-loop unpacking is unobservable)
+     "            (self._best_agent, ), (self._worst_agent, ) = special_agents(self._population, n_best=1, n_worst=1)\n\n            # stop",
+     "            (self._worst_agent, ), (self._best_agent, ) = special_agents(self._population, n_best=1, n_worst=1)\n\n            # stop"),
     ("best_agents_tail", ["C03", "C16"], H,
      "return sort_by_cost(population, task_type=task_type)[:n_best]",
      "return sort_by_cost(population, task_type=task_type)[-n_best:]"),
@@ -78,9 +78,8 @@ MUTANTS = [
      "all([diff < 0 and abs(diff) < min_delta", "all([diff < 0 or abs(diff) < min_delta"),
     ("min_delta_lt_to_le", ["C04"], A, "abs(diff) < min_delta for diff", "abs(diff) <= min_delta for diff"),
     ("error_abs_dropped", ["C04"], A, "current_error = abs(1 - avg_fit)", "current_error = 1 - avg_fit"),
-    ("first_diff_against_first_rate", ["C04"], A,
-     "previous_error = self._errors[-1] if len(self._errors) > 0 else 0",
-     "previous_error = self._errors[-1] if len(self._errors) > 0 else current_error"),
+    # (first rate change measured against the first rate instead of 0: equivalent mutant - rates are >= 0, so the
+    #  first change can never be a decrease either way)
     # ---- C06
     ("workers_le_to_lt", ["C06"], A, "if workers <= 0:", "if workers < 0:"),
     ("mode_check_removed", ["C06"], A,
